@@ -1126,13 +1126,25 @@ fn scenario_rawbytes(c: &mut Choices, o: &mut Outcome) {
   // trailing bytes, non-canonical padding bits). We detect that by comparing
   // lengths per submessage: if the canonical body length differs from the
   // header's content_length the value is not canonical.
-  let Ok((_, raw)) = wire::walk(&b2) else {
-    o.label("noncanonical");
-    return;
-  };
-  if raw.len() != m1s.submessages.len()
-    || raw.iter().any(|r| r.len_field as usize != r.body.len())
-  {
+  // (Each submessage is serialised on its own for this: walking the whole byte string can
+  // be fooled - a body shorter than its header says swallows the next submessage, and the
+  // leftovers may happen to look like the right number of submessages. Seen once in 15 M cases.)
+  let mut canonical = true;
+  for (i, sm) in m1s.submessages.iter().enumerate() {
+    match sm.write_to_vec_with_ctx(Endianness::LittleEndian) {
+      Ok(one) => {
+        let body_len = one.len().saturating_sub(4);
+        let len_field = usize::from(sm.header.content_length);
+        let last = i + 1 == m1s.submessages.len();
+        if !(len_field == body_len || (last && len_field == 0)) {
+          canonical = false;
+        }
+      }
+      Err(_) => canonical = false,
+    }
+  }
+  let walked_ok = wire::walk(&b2).map_or(false, |(_, raw)| raw.len() == m1s.submessages.len() && raw.iter().all(|r| r.len_field as usize == r.body.len()));
+  if !canonical || !walked_ok {
     o.label("noncanonical");
     return;
   }
@@ -1140,6 +1152,9 @@ fn scenario_rawbytes(c: &mut Choices, o: &mut Outcome) {
     Ok(m2) => {
       let m2s = strip(&m2);
       if m2s.header != m1s.header || m2s.submessages.len() != m1s.submessages.len() {
+        if std::env::var_os("VERIF_C14_DEBUG").is_some() {
+          eprintln!("C14DEBUG b2={}\nm1={:?}\nm2={:?}", hex(&b2), m1s.submessages.iter().map(|s| format!("{:?}", s.body)).collect::<Vec<_>>(), m2s.submessages.iter().map(|s| format!("{:?}", s.body)).collect::<Vec<_>>());
+        }
         o.violate("c14.raw-reparse", "shape", format!("re-parse changed shape: {} vs {} submessages", m2s.submessages.len(), m1s.submessages.len()));
         return;
       }
